@@ -380,7 +380,13 @@ def check_C08(P, tier):
     SA = RS.SolverAnalysis(P)
     S, vd = RS.views(SA, False, False, "generic")
     d0 = psol._one(RS.pick(vd, shifted=False), "dispersion unshifted")
-    R.add([o for o in RS.step_obligations(d0, 1, "R-SYMBOL", uniform=False) if "(q<-p), coefficient of dz^1" in o.what])
+    sym_obs = [o for o in RS.step_obligations(d0, 1, "R-SYMBOL", uniform=False) if "(q<-p), coefficient of dz^1" in o.what]
+    gaps = psol.output_gaps(SA)
+    if gaps:
+        for o in sym_obs:
+            if o.verdict == "differs":
+                o.verdict, o.detail = "uninterpretable", "the abstract solver run has unmodelled parts (%s): %s" % (gaps[0], o.detail)
+    R.add(sym_obs)
     R.add(psol.reflect_obligations(SA, "R-REFLECT"))
     S, vf = RS.views(SA, True, False, "generic")
     f = psol._one(RS.pick(vf), "footprint")
